@@ -23,10 +23,11 @@
   are COMPARED with the real validator, no longer skipped. About `overlapMemoRun`: `overlap_memo_run_no_crash` (never
   crashes), `overlap_memo_no_false_alarm` (clause ⇒ silent, on every document, no side condition),
   `overlap_memo_neutral_partial` (un-memoised silent ⇒ memoised silent, under `OverlapHyps`).
-  `OverlapMemoNeutralStatement` - the memo never LOSES a report - is PROVED UNDER THE SIDE CONDITIONS of the rule's
-  equivalence in `Props/C06_overlap_memo_complete.lean` (`overlap_memo_complete`, `overlap_memo_never_loses`,
-  `overlap_memo_neutral_side`); without them (only `NoCrash`) it stays open, and the correspondence cross-checks it on
-  every generated document (`memo:crosscheck`, evidence key `outside_model`).
+  "The memo never LOSES a report" is PROVED in `Props/C06_overlap_memo_complete.lean` (`overlap_memo_complete`,
+  `overlap_memo_never_loses`: under `ParentsAgree`, no fragment named "", `WfIds` - cyclic fragment graphs included);
+  `OverlapMemoNeutralStatement` as a whole under the side conditions of the un-memoised theorem
+  (`overlap_memo_neutral_side`); what stays open is "un-memoised silent ⇒ memoised silent" outside them, and the
+  correspondence cross-checks it on every generated document (`memo:crosscheck`, evidence key `outside_model`).
 -/
 import PyGqlModel.Lemmas.ValidateOverlapMemo2
 import PyGqlModel.Lemmas.ValidateOverlapMemoSound
